@@ -39,7 +39,11 @@ static inline void body(int use_try) {
   }
 }
 void vm_thread_1(void) { body(0); }
+#ifdef T2_TRY
+void vm_thread_2(void) { body(1); }
+#else
 void vm_thread_2(void) { body(0); }
+#endif
 #if NF > 2
 #ifdef T3_TRY
 void vm_thread_3(void) { body(1); }
